@@ -50,7 +50,9 @@ MANIFEST = {
     "design_ref": "DESIGN.md 6/C02,C03,C04,C01 (T C04)",
     "note": "Trusted: Coq kernel + vm_compute, tr_tables translator, frozen spec tables (which sites exist), the generator. "
             "Store-level allow_custom forwarding is covered by C14's call-site table. Theorem hypotheses not discharged for "
-            "the pinned tree: vr_year_pad, vr_ref_flip_unreg, vr_positional_none (all fixed in /repo HEAD; detected per run).",
+            "the pinned tree: vr_year_pad, vr_ref_flip_unreg, vr_positional_none (all fixed in /repo HEAD; detected per run). "
+            "The oracle worker runs under a PYTHONHASHSEED other than the driver's; an exception of the oracle itself is "
+            "reported per case (oracle-could-not-evaluate-the-case), never swallowed.",
     "technique": "Coq proof over an executable model + correspondence run + property oracle on the implementation",
 }
 
